@@ -522,6 +522,7 @@ fn release_action_mappings(state: &mut State) -> (events: Vec<Event>)
     final(state).pass_through_keys@ == old(state).pass_through_keys@,
     //@ C02 C07 | release paths emit only releases
     forall|e: Event| events@.contains(e) ==> e is Released,
+    all_released(events@),
     //@  | frame / auxiliary
     sub(final(state).mapped_output_keys@, old(state).mapped_output_keys@),
     final(state).mapped_absorbed_keys@ == old(state).mapped_absorbed_keys@,
@@ -949,6 +950,8 @@ fn release_all_action_keys(state: &mut State) -> (evs: Vec<Event>)
     sub(final(state).mapped_output_keys@, old(state).mapped_output_keys@),
     sub(final(state).pass_through_keys@, old(state).pass_through_keys@),
     final(state).mapped_absorbed_keys@ == old(state).mapped_absorbed_keys@, final(state).absorbing_trigger == old(state).absorbing_trigger,
+    //@ C02 C07 | release paths emit only releases
+    all_released(evs@),
   { //@ | body
   let mut to_release: Vec<KeyCode> = Vec::new();
   let ghost pt_old = old(state).pass_through_keys@.to_set();
@@ -1083,7 +1086,8 @@ fn release_all_action_keys(state: &mut State) -> (evs: Vec<Event>)
     }
     // the value of the tail expression is only known pointwise: transport the fold equation to every such sequence
     assert forall|s: Seq<Event>| s.len() == to_release@.len() && (forall|i: int| 0 <= i < s.len() ==> s[i] == Event::Released(to_release@[i]))
-      implies #[trigger] apply(h0, s) == Some(held(*state)) by { assert(s =~= rel_seq(to_release@)); }
+      implies #[trigger] apply(h0, s) == Some(held(*state)) && all_released(s) by { assert(s =~= rel_seq(to_release@));
+        assert forall|e: Event| s.contains(e) implies e is Released by { let j = choose|j: int| 0 <= j < s.len() && s[j] == e; assert(s[j] == Event::Released(to_release@[j])); } }
   }
   to_release.iter().map(|k: &KeyCode| -> (e: Event) ensures e == Event::Released(*k) { Released(*k) }).collect()
 }
@@ -1164,6 +1168,42 @@ spec fn c08_anm(o: State, st: State, nk: KeyCode, m: Mapping) -> bool {
        })
 }
 
+
+spec fn only_presses(evs: Seq<Event>, to: Seq<KeyCode>) -> bool { forall|x: KeyCode| #[trigger] evs.contains(Event::Pressed(x)) ==> to.contains(x) }
+proof fn lemma_only_presses_released(evs: Seq<Event>, to: Seq<KeyCode>) requires all_released(evs) ensures only_presses(evs, to)
+{ assert forall|x: KeyCode| #[trigger] evs.contains(Event::Pressed(x)) implies to.contains(x) by { assert(Event::Pressed(x) is Released); } }
+proof fn lemma_only_presses_push(e0: Seq<Event>, e: Event, to: Seq<KeyCode>)
+  requires only_presses(e0, to), match e { Event::Pressed(x) => to.contains(x), _ => true }
+  ensures only_presses(e0.push(e), to)
+{
+  assert forall|x: KeyCode| #[trigger] e0.push(e).contains(Event::Pressed(x)) implies to.contains(x) by {
+    let j = choose|j: int| 0 <= j < e0.push(e).len() && e0.push(e)[j] == Event::Pressed(x);
+    if j < e0.len() { assert(e0[j] == Event::Pressed(x)); assert(e0.contains(Event::Pressed(x))); }
+  }
+}
+proof fn lemma_only_presses_append(e0: Seq<Event>, c: Seq<Event>, to: Seq<KeyCode>)
+  requires only_presses(e0, to), all_released(c)
+  ensures only_presses(e0 + c, to)
+{
+  assert forall|x: KeyCode| #[trigger] (e0 + c).contains(Event::Pressed(x)) implies to.contains(x) by {
+    let j = choose|j: int| 0 <= j < (e0 + c).len() && (e0 + c)[j] == Event::Pressed(x);
+    if j < e0.len() { assert(e0[j] == Event::Pressed(x)); assert(e0.contains(Event::Pressed(x))); }
+    else { assert(c[j - e0.len()] == Event::Pressed(x)); assert(c.contains(Event::Pressed(x))); assert(Event::Pressed(x) is Released); }
+  }
+}
+
+
+proof fn lemma_only_presses_ext(e0: Seq<Event>, e1: Seq<Event>, to: Seq<KeyCode>, nk: KeyCode)
+  requires only_presses(e0, to), to.contains(nk), e0.len() <= e1.len(), forall|j: int| 0 <= j < e0.len() ==> e1[j] == e0[j],
+    forall|j: int| e0.len() <= j < e1.len() ==> e1[j] == Event::Pressed(nk) || e1[j] == Event::Released(nk)
+  ensures only_presses(e1, to)
+{
+  assert forall|x: KeyCode| #[trigger] e1.contains(Event::Pressed(x)) implies to.contains(x) by {
+    let j = choose|j: int| 0 <= j < e1.len() && e1[j] == Event::Pressed(x);
+    if j < e0.len() { assert(e0[j] == Event::Pressed(x)); assert(e0.contains(Event::Pressed(x))); }
+  }
+}
+
 //@ C01 C02 C03 C05 C07 C08 C09 C14 C19 | default: fn add_new_mapping
 fn add_new_mapping(state: &mut State, new_key: &KeyCode, m: &Mapping) -> (res: StepResult)
   requires
@@ -1201,6 +1241,8 @@ fn add_new_mapping(state: &mut State, new_key: &KeyCode, m: &Mapping) -> (res: S
     c03_fire(*m, res.events@, held(*final(state))),
     //@ C07 | after a mapping with Disabled or Special repeat fired, only modifiers are held
     c07_fire(*m, held(*final(state))),
+    //@ C08 C04 C05 | the only keys this step presses are output keys of the fired mapping
+    only_presses(res.events@, m.to@),
     //@ C08 | absorbed keys: every key of the fired mapping's absorbing list is absorbed afterwards with the pressed key as trigger; if the output contains a non-modifier key and the pressed key is not the current absorbing trigger, the keys absorbed before are lifted (no longer considered pressed, not passed through) and forgotten, otherwise they stay absorbed
     c08_anm(*old(state), *final(state), *new_key, *m),
     //@ C09 | repeat request
@@ -1219,13 +1261,14 @@ fn add_new_mapping(state: &mut State, new_key: &KeyCode, m: &Mapping) -> (res: S
   { //@ | body
   let mut events: Vec<Event> = Vec::new();
   let ghost nk0 = *new_key;
+  proof { assert(all_released(events@)); }
   let ghost h0 = held(*old(state));
   
   proof { assert(jx(*state, m.to@)); assert(nonempty_from(state.active_mappings@)); lemma_am_sub_refl(state.active_mappings@); assert(anm_extra(*old(state), *state, m.absorbing@)); }
   if is_action_mapping(m) {
     let ghost e0 = events@; let ghost hm0 = held(*state);
     events.append(&mut release_action_mappings(state));
-    proof { let c1 = choose|c: Seq<Event>| events@ == e0 + c && apply(hm0, c) == Some(held(*state)); lemma_apply_append(h0, e0, c1); assert(jx(*state, m.to@)); assert(nonempty_from(state.active_mappings@)); assert((j2(*old(state)) ==> j2(*state)) && (j3(*old(state)) ==> j3(*state)) && (j4(*old(state)) ==> j4(*state)) && (j6(*old(state)) ==> j6(*state)) && sub(state.input_pressed_keys@, old(state).input_pressed_keys@) && (forall|x: KeyCode| #[trigger] old(state).input_pressed_keys@.contains(x) && (!old(state).mapped_absorbed_keys@.contains(x) || old(state).absorbing_trigger == Some(nk0)) ==> state.input_pressed_keys@.contains(x)) && anm_extra(*old(state), *state, m.absorbing@)); }
+    proof { let c1 = choose|c: Seq<Event>| events@ == e0 + c && apply(hm0, c) == Some(held(*state)) && all_released(c); lemma_apply_append(h0, e0, c1); assert(e0 =~= Seq::<Event>::empty()); assert(e0 + c1 =~= c1); assert(jx(*state, m.to@)); assert(nonempty_from(state.active_mappings@)); assert((j2(*old(state)) ==> j2(*state)) && (j3(*old(state)) ==> j3(*state)) && (j4(*old(state)) ==> j4(*state)) && (j6(*old(state)) ==> j6(*state)) && sub(state.input_pressed_keys@, old(state).input_pressed_keys@) && (forall|x: KeyCode| #[trigger] old(state).input_pressed_keys@.contains(x) && (!old(state).mapped_absorbed_keys@.contains(x) || old(state).absorbing_trigger == Some(nk0)) ==> state.input_pressed_keys@.contains(x)) && anm_extra(*old(state), *state, m.absorbing@)); }
   }
   if has_action_key(&m.to) {
     let should_absorb = {
@@ -1237,14 +1280,14 @@ fn add_new_mapping(state: &mut State, new_key: &KeyCode, m: &Mapping) -> (res: S
     if should_absorb {
       let ghost e1 = events@; let ghost hm1 = held(*state); let ghost am_pre = state.active_mappings@;
       events.append(&mut release_absorbed_keys(state));
-      proof { lemma_nonempty_sub(state.active_mappings@, am_pre); lemma_am_sub_trans(state.active_mappings@, am_pre, old(state).active_mappings@); let c2 = choose|c: Seq<Event>| events@ == e1 + c && apply(hm1, c) == Some(held(*state)); lemma_apply_append(h0, e1, c2); assert(jx(*state, m.to@)); assert((j2(*old(state)) ==> j2(*state)) && (j3(*old(state)) ==> j3(*state)) && (j4(*old(state)) ==> j4(*state)) && (j6(*old(state)) ==> j6(*state)) && sub(state.input_pressed_keys@, old(state).input_pressed_keys@) && (forall|x: KeyCode| #[trigger] old(state).input_pressed_keys@.contains(x) && (!old(state).mapped_absorbed_keys@.contains(x) || old(state).absorbing_trigger == Some(nk0)) ==> state.input_pressed_keys@.contains(x)) && anm_extra(*old(state), *state, m.absorbing@)); }
+      proof { lemma_nonempty_sub(state.active_mappings@, am_pre); lemma_am_sub_trans(state.active_mappings@, am_pre, old(state).active_mappings@); let c2 = choose|c: Seq<Event>| events@ == e1 + c && apply(hm1, c) == Some(held(*state)) && all_released(c); lemma_apply_append(h0, e1, c2); lemma_append_contains(e1, c2); assert(jx(*state, m.to@)); assert((j2(*old(state)) ==> j2(*state)) && (j3(*old(state)) ==> j3(*state)) && (j4(*old(state)) ==> j4(*state)) && (j6(*old(state)) ==> j6(*state)) && sub(state.input_pressed_keys@, old(state).input_pressed_keys@) && (forall|x: KeyCode| #[trigger] old(state).input_pressed_keys@.contains(x) && (!old(state).mapped_absorbed_keys@.contains(x) || old(state).absorbing_trigger == Some(nk0)) ==> state.input_pressed_keys@.contains(x)) && anm_extra(*old(state), *state, m.absorbing@)); }
     }
   }
   
   let ghost mo_s1 = state.mapped_output_keys@; let ghost pt_s1 = state.pass_through_keys@; let ghost am_s1 = state.active_mappings@; let ghost ip_s1 = state.input_pressed_keys@; let ghost ab_s1 = state.mapped_absorbed_keys@; let ghost at_s1 = state.absorbing_trigger;
   let ghost cleared = has_action(m.to@) && old(state).absorbing_trigger != Some(nk0);
   let ghost gone: Seq<KeyCode> = if cleared { old(state).mapped_absorbed_keys@ } else { Seq::empty() };
-  proof { assert(abs_phase(*old(state), *state, nk0, m.to@)); assert(gone_keep(*state, gone)); }
+  proof { assert(abs_phase(*old(state), *state, nk0, m.to@)); assert(gone_keep(*state, gone)); assert(all_released(events@)); }
   proof { assert(held(*state) =~= state.pass_through_keys@.to_set().union(state.mapped_output_keys@.to_set())); }
   let pass_through_keys = &mut state.pass_through_keys;
   let mapped_output_keys = &mut state.mapped_output_keys;
@@ -1260,7 +1303,7 @@ fn add_new_mapping(state: &mut State, new_key: &KeyCode, m: &Mapping) -> (res: S
       apply(h0, events@) == Some(pass_through_keys@.to_set().union(mapped_output_keys@.to_set())),
       //@  | frame / auxiliary
       forall|x: KeyCode| #[trigger] mapped_output_keys@.contains(x) ==> mo_s1.contains(x) || m.to@.contains(x),
-      sub(pass_through_keys@, pt_s1),
+      sub(pass_through_keys@, pt_s1), all_released(events@),
       forall|j: int| 0 <= j < __i ==> !m.from@.contains(#[trigger] pass_through_keys@[j]) && !m.to@.contains(pass_through_keys@[j]),
     decreases pass_through_keys@.len() - __i
   { let ghost pt0 = pass_through_keys@; let ghost mo0 = mapped_output_keys@; let ghost e0 = events@;
@@ -1270,7 +1313,7 @@ fn add_new_mapping(state: &mut State, new_key: &KeyCode, m: &Mapping) -> (res: S
     if m.from.contains(&old_key) || m.to.contains(&old_key) {
       if !m.to.contains(&old_key) {
         events.push(Released(old_key));
-        proof { assert(events@.drop_last() =~= e0); }
+        proof { assert(events@.drop_last() =~= e0); lemma_push_contains(e0, Event::Released(old_key)); }
         false
       }
       else {
@@ -1289,6 +1332,7 @@ fn add_new_mapping(state: &mut State, new_key: &KeyCode, m: &Mapping) -> (res: S
   proof { assert(held(*state) =~= state.pass_through_keys@.to_set().union(state.mapped_output_keys@.to_set()));
     assert(state.active_mappings@ == am_s1); assert(state.mapped_absorbed_keys@ == ab_s1); assert(state.absorbing_trigger == at_s1);
     assert(gone_keep(*state, gone)) by { assert forall|d: KeyCode| #[trigger] gone.contains(d) implies !state.input_pressed_keys@.contains(d) && !state.pass_through_keys@.contains(d) by { if state.pass_through_keys@.contains(d) { assert(pt_s1.contains(d)); } } }
+    lemma_only_presses_released(events@, m.to@);
     assert forall|x: KeyCode| #[trigger] state.pass_through_keys@.contains(x) implies !m.from@.contains(x) && !m.to@.contains(x) by { let j = choose|j: int| 0 <= j < state.pass_through_keys@.len() && state.pass_through_keys@[j] == x; assert(!m.from@.contains(state.pass_through_keys@[j])); }
     assert(state.input_pressed_keys@ == ip_s1);
     assert(jx(*state, m.to@));
@@ -1308,6 +1352,8 @@ fn add_new_mapping(state: &mut State, new_key: &KeyCode, m: &Mapping) -> (res: S
       (j2(*old(state)) ==> j2(*state)) && (j3(*old(state)) ==> j3(*state)) && (j4(*old(state)) ==> j4(*state)) && (j6(*old(state)) ==> j6(*state)) && sub(state.input_pressed_keys@, old(state).input_pressed_keys@) && (forall|x: KeyCode| #[trigger] old(state).input_pressed_keys@.contains(x) && (!old(state).mapped_absorbed_keys@.contains(x) || old(state).absorbing_trigger == Some(nk0)) ==> state.input_pressed_keys@.contains(x)) && anm_extra(*old(state), *state, m.absorbing@),
       //@ C03 C07 | the output keys handled so far are held, the non-modifier ones were pressed by an event of this step
       out_done(m.to@, it.index@ as int, events@, held(*state)),
+      //@ C08 C04 C05 | so far only output keys of the mapping have been pressed
+      only_presses(events@, m.to@),
       //@ C08 | the absorbed list and its trigger are untouched while the outputs are pressed; lifted keys stay lifted
       state.mapped_absorbed_keys@ == ab_s1, state.absorbing_trigger == at_s1, state.input_pressed_keys@ == ip_s1, gone_keep(*state, gone),
       //@  | frame / auxiliary
@@ -1384,6 +1430,7 @@ fn add_new_mapping(state: &mut State, new_key: &KeyCode, m: &Mapping) -> (res: S
       lemma_prefix_contains(e0, events@);
       if !is_mod(*new_key) { assert(events@.last() == Event::Pressed(*new_key)); assert(events@.contains(events@[events@.len() - 1])); }
       lemma_out_done_step(m.to@, it.index@ as int, e0, events@, hpre, held(*state));
+      lemma_only_presses_ext(e0, events@, m.to@, *new_key);
       assert(gone_keep(*state, gone)) by { assert forall|d: KeyCode| #[trigger] gone.contains(d) implies !state.input_pressed_keys@.contains(d) && !state.pass_through_keys@.contains(d) by { if state.pass_through_keys@.contains(d) { assert(pt0.contains(d)); } } }
     }
   }
@@ -1402,7 +1449,7 @@ fn add_new_mapping(state: &mut State, new_key: &KeyCode, m: &Mapping) -> (res: S
       (j2(*old(state)) ==> j2(*state)) && (j3(*old(state)) ==> j3(*state)) && (j4(*old(state)) ==> j4(*state)) && (j6(*old(state)) ==> j6(*state)) && sub(state.input_pressed_keys@, old(state).input_pressed_keys@) && (forall|x: KeyCode| #[trigger] old(state).input_pressed_keys@.contains(x) && (!old(state).mapped_absorbed_keys@.contains(x) || old(state).absorbing_trigger == Some(nk0)) ==> state.input_pressed_keys@.contains(x)) && anm_extra(*old(state), *state, m.absorbing@),
       it.seq().len() == m.absorbing@.len(), forall|j: int| 0 <= j < m.absorbing@.len() ==> *it.seq()[j] == m.absorbing@[j],
       //@ C03 C07 | all output keys are held, the non-modifier ones were pressed by an event of this step
-      out_done(m.to@, m.to@.len() as int, events@, held(*state)),
+      out_done(m.to@, m.to@.len() as int, events@, held(*state)), only_presses(events@, m.to@),
       //@ C08 | the keys of the absorbing list handled so far are absorbed; nothing else is added; the trigger is untouched so far
       state.absorbing_trigger == at_s1, gone_keep(*state, gone), sub(ab_s1, state.mapped_absorbed_keys@),
       forall|j: int| 0 <= j < it.index@ ==> state.mapped_absorbed_keys@.contains(#[trigger] m.absorbing@[j]),
@@ -1447,15 +1494,15 @@ fn add_new_mapping(state: &mut State, new_key: &KeyCode, m: &Mapping) -> (res: S
       // Release all action keys to prevent repeating
       let ghost e0 = res.events@; let ghost hm0 = held(*state);
       res.events.append(&mut release_all_action_keys(state));
-      proof { let c = choose|c: Seq<Event>| res.events@ == e0 + c && apply(hm0, c) == Some(held(*state)); lemma_apply_append(h0, e0, c);
-        lemma_c03_fire_norepeat(*m, e0, c, hm0, held(*state)); }
+      proof { let c = choose|c: Seq<Event>| res.events@ == e0 + c && apply(hm0, c) == Some(held(*state)) && all_released(c); lemma_apply_append(h0, e0, c);
+        lemma_c03_fire_norepeat(*m, e0, c, hm0, held(*state)); lemma_only_presses_append(e0, c, m.to@); }
     },
     Repeat::Special { keys, delay_ms, interval_ms } => {
       // First release action keys
       let ghost e0 = res.events@; let ghost hm0 = held(*state);
       res.events.append(&mut release_all_action_keys(state));
-      proof { let c = choose|c: Seq<Event>| res.events@ == e0 + c && apply(hm0, c) == Some(held(*state)); lemma_apply_append(h0, e0, c);
-        lemma_c03_fire_norepeat(*m, e0, c, hm0, held(*state)); }
+      proof { let c = choose|c: Seq<Event>| res.events@ == e0 + c && apply(hm0, c) == Some(held(*state)) && all_released(c); lemma_apply_append(h0, e0, c);
+        lemma_c03_fire_norepeat(*m, e0, c, hm0, held(*state)); lemma_only_presses_append(e0, c, m.to@); }
 
       // Now tell it what key to repeat
       res.repeat = ResultingRepeat::Repeating {
@@ -2257,6 +2304,7 @@ proof fn lemma_ip_kept_rak(a: State, b: State, o: State)
 spec fn c08_pre(o: State, st: State, k: KeyCode, m: Mapping) -> bool {
   &&& (forall|a: KeyCode| #[trigger] m.absorbing@.contains(a) ==> st.mapped_absorbed_keys@.contains(a))
   &&& (m.absorbing@.len() > 0 ==> st.absorbing_trigger == Some(k))
+  &&& (forall|x: KeyCode| #[trigger] st.mapped_absorbed_keys@.contains(x) ==> (o.mapped_absorbed_keys@.contains(x) && x != k) || m.absorbing@.contains(x))
   &&& (if has_action(m.to@) && o.absorbing_trigger != Some(k) {
          (forall|d: KeyCode| #[trigger] o.mapped_absorbed_keys@.contains(d) && d != k ==> !st.input_pressed_keys@.contains(d) && !st.pass_through_keys@.contains(d))
          && (forall|x: KeyCode| #[trigger] st.mapped_absorbed_keys@.contains(x) ==> m.absorbing@.contains(x)) && (m.absorbing@.len() == 0 ==> st.absorbing_trigger is None)
@@ -2292,13 +2340,13 @@ proof fn lemma_c08_gone_push(o: State, a: State, b: State, k: KeyCode)
   ensures c08_gone(o, b, k)
 { lemma_push_contains(a.pass_through_keys@, k); }
 proof fn lemma_c08_final_hit(o: State, pre: State, st: State, k: KeyCode, g: Seq<Mapping>)
-  requires exists|i: int| is_fired(g, o, k, i) && c08_pre(o, pre, k, #[trigger] g[i]),
+  requires exists|i: int| #![trigger is_fired(g, o, k, i)] is_fired(g, o, k, i) && c08_pre(o, pre, k, g[i]),
     st.input_pressed_keys@ == pre.input_pressed_keys@.push(k), st.pass_through_keys@ == pre.pass_through_keys@, st.mapped_absorbed_keys@ == pre.mapped_absorbed_keys@, st.absorbing_trigger == pre.absorbing_trigger,
-  ensures forall|i: int| is_fired(g, o, k, i) ==> c08_np(o, st, k, Some(#[trigger] g[i]), false)
+  ensures forall|i: int| #![trigger is_fired(g, o, k, i)] is_fired(g, o, k, i) ==> c08_np(o, st, k, Some(g[i]), false)
 {
-  let a = choose|i: int| is_fired(g, o, k, i) && c08_pre(o, pre, k, #[trigger] g[i]);
+  let a = choose|i: int| #![trigger is_fired(g, o, k, i)] is_fired(g, o, k, i) && c08_pre(o, pre, k, g[i]);
   lemma_push_contains(pre.input_pressed_keys@, k);
-  assert forall|i: int| is_fired(g, o, k, i) implies c08_np(o, st, k, Some(#[trigger] g[i]), false) by { lemma_fired_unique(g, o, k, a, i); }
+  assert forall|i: int| #![trigger is_fired(g, o, k, i)] is_fired(g, o, k, i) implies c08_np(o, st, k, Some(g[i]), false) by { lemma_fired_unique(g, o, k, a, i); }
 }
 proof fn lemma_c08_final_keep(o: State, pre: State, st: State, k: KeyCode, ment: bool)
   requires ment || is_mod(k), forall|x: KeyCode| pre.mapped_absorbed_keys@.contains(x) <==> (o.mapped_absorbed_keys@.contains(x) && x != k), pre.absorbing_trigger == o.absorbing_trigger,
@@ -2312,15 +2360,21 @@ proof fn lemma_c08_final_clear(o: State, pre: State, st: State, k: KeyCode)
 { lemma_push_contains(pre.input_pressed_keys@, k); }
 proof fn lemma_c08_pre(o: State, pre: State, st: State, k: KeyCode, m: Mapping)
   requires c08_anm(pre, st, k, m), pre.absorbing_trigger == o.absorbing_trigger,
+    forall|x: KeyCode| #[trigger] st.mapped_absorbed_keys@.contains(x) ==> pre.mapped_absorbed_keys@.contains(x) || m.absorbing@.contains(x),
     forall|x: KeyCode| pre.mapped_absorbed_keys@.contains(x) <==> (o.mapped_absorbed_keys@.contains(x) && x != k),
   ensures c08_pre(o, st, k, m)
 {
+  assert forall|x: KeyCode| #[trigger] st.mapped_absorbed_keys@.contains(x) implies (o.mapped_absorbed_keys@.contains(x) && x != k) || m.absorbing@.contains(x) by { if !m.absorbing@.contains(x) { assert(pre.mapped_absorbed_keys@.contains(x)); } }
   if has_action(m.to@) && o.absorbing_trigger != Some(k) {
     assert forall|d: KeyCode| #[trigger] o.mapped_absorbed_keys@.contains(d) && d != k implies !st.input_pressed_keys@.contains(d) && !st.pass_through_keys@.contains(d) by { assert(pre.mapped_absorbed_keys@.contains(d)); }
   } else {
     assert forall|x: KeyCode| #[trigger] o.mapped_absorbed_keys@.contains(x) && x != k implies st.mapped_absorbed_keys@.contains(x) by { assert(pre.mapped_absorbed_keys@.contains(x)); }
   }
 }
+
+
+proof fn lemma_ar_empty() ensures all_released(Seq::<Event>::empty()) {}
+proof fn lemma_ar_append(a: Seq<Event>, b: Seq<Event>) requires all_released(a), all_released(b) ensures all_released(a + b) { lemma_append_contains(a, b); }
 
 //@ C01 C02 C03 C05 C08 C09 C14 C19 | default: fn newly_press
 fn newly_press(mapper: &mut Mapper, k: KeyCode) -> (res: StepResult)
@@ -2361,8 +2415,11 @@ fn newly_press(mapper: &mut Mapper, k: KeyCode) -> (res: StepResult)
     //@ C03 C05 C08 | a key that is considered pressed and is not absorbed stays considered pressed
     ip_kept(final(mapper).state, old(mapper).state),
     //@ C08 | absorbed keys across a press: the pressed key itself stops being absorbed; the fired mapping's absorbing list is absorbed with the pressed key as trigger; when a non-modifier key goes onto the virtual keyboard and the pressed key is not the absorbing trigger, every key absorbed before is lifted and forgotten; otherwise the absorbed keys stay absorbed
-    forall|i: int| is_fired(group(old(mapper).layout, k), old(mapper).state, k, i) ==> c08_np(old(mapper).state, final(mapper).state, k, Some(#[trigger] group(old(mapper).layout, k)[i]), false),
+    forall|i: int| #![trigger is_fired(group(old(mapper).layout, k), old(mapper).state, k, i)] is_fired(group(old(mapper).layout, k), old(mapper).state, k, i) ==> c08_np(old(mapper).state, final(mapper).state, k, Some(group(old(mapper).layout, k)[i]), false),
     none_fired(group(old(mapper).layout, k), old(mapper).state, k) ==> c08_np(old(mapper).state, final(mapper).state, k, None, mentioned(old(mapper).state.active_mappings@, k)),
+    //@ C08 C04 C05 | the only keys a press step presses are the output keys of the fired mapping, or the pressed key itself when it is passed through
+    forall|i: int| #![trigger is_fired(group(old(mapper).layout, k), old(mapper).state, k, i)] is_fired(group(old(mapper).layout, k), old(mapper).state, k, i) ==> only_presses(res.events@, group(old(mapper).layout, k)[i].to@),
+    none_fired(group(old(mapper).layout, k), old(mapper).state, k) ==> only_presses(res.events@, seq![k]),
     //@ C19 | bookkeeping equals the fold of the emitted events; no redundant press or release
     apply(held(old(mapper).state), res.events@) == Some(held(final(mapper).state)),
     //@ C01 C02 C09 | effect of the call on the list of keys considered pressed
@@ -2370,8 +2427,8 @@ fn newly_press(mapper: &mut Mapper, k: KeyCode) -> (res: StepResult)
     //@ C09 | repeat request
     !(res.repeat is NoChange),
     //@ C03 C08 C09 | firing specification: the last-listed supported mapping of the group fires, with its repeat request
-    forall|i: int| is_fired(group(old(mapper).layout, k), old(mapper).state, k, i) ==>
-        final(mapper).state.active_mappings@.len() >= 1 && mview(final(mapper).state.active_mappings@.last()) == mview(#[trigger] group(old(mapper).layout, k)[i])
+    forall|i: int| #![trigger is_fired(group(old(mapper).layout, k), old(mapper).state, k, i)] is_fired(group(old(mapper).layout, k), old(mapper).state, k, i) ==>
+        final(mapper).state.active_mappings@.len() >= 1 && mview(final(mapper).state.active_mappings@.last()) == mview(group(old(mapper).layout, k)[i])
         && repeat_matches(group(old(mapper).layout, k)[i].repeat, res.repeat)
         && c03_fire(group(old(mapper).layout, k)[i], res.events@, held(final(mapper).state))
         && c07_fire(group(old(mapper).layout, k)[i], held(final(mapper).state)),
@@ -2386,7 +2443,7 @@ fn newly_press(mapper: &mut Mapper, k: KeyCode) -> (res: StepResult)
     np_origin(final(mapper).state, old(mapper).state, group(old(mapper).layout, k)),
     j3b(old(mapper).layout, old(mapper).state) && j5(old(mapper).layout, old(mapper).state) ==> j3b(final(mapper).layout, final(mapper).state) && j5(final(mapper).layout, final(mapper).state),
   { //@ | body
-  hide(j4); hide(j6); hide(nonempty_from); hide(from_in); hide(am_sub); hide(sup); hide(np_origin); hide(c03_fire); hide(c07_fire); hide(mentioned); hide(ip_kept); hide(c08_np); hide(c08_anm);
+  hide(j4); hide(j6); hide(nonempty_from); hide(from_in); hide(am_sub); hide(sup); hide(np_origin); hide(c03_fire); hide(c07_fire); hide(mentioned); hide(ip_kept); hide(c08_np); hide(c08_anm); hide(only_presses); hide(all_released);
   let mappings = &mapper.layout.mappings;
   let mut state = &mut mapper.state;
   
@@ -2457,7 +2514,7 @@ fn newly_press(mapper: &mut Mapper, k: KeyCode) -> (res: StepResult)
         any_hit ==> np_origin(*state, st0, g),
         any_hit ==> ip_kept(*state, st0),
         //@ C08 | absorbed keys after the firing
-        any_hit ==> exists|i: int| is_fired(g, st0, k, i) && c08_pre(st0, *state, k, #[trigger] g[i]),
+        any_hit ==> exists|i: int| #![trigger is_fired(g, st0, k, i)] is_fired(g, st0, k, i) && c08_pre(st0, *state, k, g[i]) && only_presses(res.events@, g[i].to@),
         //@  | frame / auxiliary
         should_absorb ==> absorbed_keys@ == ab1,
         !should_absorb ==> (absorbed_keys@.len() == 0 && at1 == Some(k)),
@@ -2469,7 +2526,7 @@ fn newly_press(mapper: &mut Mapper, k: KeyCode) -> (res: StepResult)
         //@ C03 C08 | firing specification (support test, grouping of the layout by final trigger key)
         !any_hit ==> forall|j: int| mappings@.len() - it.index@ <= j < mappings@.len() ==> !sup(#[trigger] mappings@[j], st0, k),
         //@ C03 C08 C09 | firing specification: the last-listed supported mapping of the group fires, with its repeat request
-        any_hit ==> exists|i: int| is_fired(g, st0, k, i) && state.active_mappings@.len() >= 1 && mview(state.active_mappings@.last()) == mview(g[i]) && repeat_matches(g[i].repeat, res.repeat) && c03_fire(g[i], res.events@, held(*state)) && c07_fire(g[i], held(*state)),
+        any_hit ==> exists|i: int| #![trigger is_fired(g, st0, k, i)] is_fired(g, st0, k, i) && state.active_mappings@.len() >= 1 && mview(state.active_mappings@.last()) == mview(g[i]) && repeat_matches(g[i].repeat, res.repeat) && c03_fire(g[i], res.events@, held(*state)) && c07_fire(g[i], held(*state)),
         //@  | frame / auxiliary
         it.seq().len() == mappings@.len(),
         forall|j: int| 0 <= j < mappings@.len() ==> *it.seq()[j] == mappings@[mappings@.len() - 1 - j],
@@ -2516,7 +2573,7 @@ fn newly_press(mapper: &mut Mapper, k: KeyCode) -> (res: StepResult)
       if is_supported(&mapping.from, &state.input_pressed_keys, &absorbed_keys, &k) {
         let ghost hm0 = held(*state); let ghost e0 = res.events@; let ghost s_pre_anm = *state;
         res.append(add_new_mapping(&mut state, &k, &mapping));
-        proof { let c = choose|c: Seq<Event>| res.events@ == e0 + c && apply(hm0, c) == Some(held(*state)) && c03_fire(*mapping, c, held(*state)) && c07_fire(*mapping, held(*state)) && c08_anm(s_pre_anm, *state, k, *mapping); assert(e0.len() == 0); assert(e0 =~= Seq::<Event>::empty()); assert(e0 + c =~= c);
+        proof { let c = choose|c: Seq<Event>| res.events@ == e0 + c && apply(hm0, c) == Some(held(*state)) && c03_fire(*mapping, c, held(*state)) && c07_fire(*mapping, held(*state)) && c08_anm(s_pre_anm, *state, k, *mapping) && only_presses(c, mapping.to@); assert(e0.len() == 0); assert(e0 =~= Seq::<Event>::empty()); assert(e0 + c =~= c);
           assert forall|f: KeyCode| #[trigger] state.active_mappings@.last().from@.contains(f) implies f == k || state.input_pressed_keys@.contains(f) by {
             let j = choose|j: int| 0 <= j < mapping.from@.len() && mapping.from@[j] == f;
             assert((old(mapper).state.input_pressed_keys@.contains(mapping.from@[j]) && !absorbed_keys@.contains(mapping.from@[j])) || mapping.from@[j] == k);
@@ -2598,11 +2655,12 @@ fn newly_press(mapper: &mut Mapper, k: KeyCode) -> (res: StepResult)
       if is_action_key(&k) {
         let ghost e0 = res.events@; let ghost hm0 = held(*state); let ghost s_a = *state;
         res.events.append(&mut release_action_mappings(&mut state));
-        proof { let c = choose|c: Seq<Event>| res.events@ == e0 + c && apply(hm0, c) == Some(held(*state)); lemma_apply_append(h0, e0, c);
+        proof { let c = choose|c: Seq<Event>| res.events@ == e0 + c && apply(hm0, c) == Some(held(*state)) && all_released(c); lemma_apply_append(h0, e0, c);
+          assert(e0 =~= Seq::<Event>::empty()); lemma_ar_empty(); lemma_ar_append(e0, c);
           lemma_frame_ram(s_a, *state); lemma_am_sub_refl(s_a.active_mappings@); lemma_np_origin_shrink(s_a, *state, st0, g); lemma_ip_kept_eq(s_a, *state, st0); }
         let ghost e1 = res.events@; let ghost am_pre = state.active_mappings@; let ghost hm1 = held(*state); let ghost s_c = *state;
         res.events.append(&mut release_absorbed_keys(&mut state));
-        proof { let c = choose|c: Seq<Event>| res.events@ == e1 + c && apply(hm1, c) == Some(held(*state)); lemma_apply_append(h0, e1, c);
+        proof { let c = choose|c: Seq<Event>| res.events@ == e1 + c && apply(hm1, c) == Some(held(*state)) && all_released(c); lemma_apply_append(h0, e1, c); lemma_ar_append(e1, c);
           lemma_nonempty_sub(state.active_mappings@, am_pre);
           lemma_nm_sub(state.active_mappings@, am_pre, k); lemma_np_origin_shrink(s_c, *state, st0, g); lemma_ip_kept_rak(s_c, *state, st0); lemma_c08_gone_rak(st0, s_c, *state, k); }
       }
@@ -2614,7 +2672,9 @@ fn newly_press(mapper: &mut Mapper, k: KeyCode) -> (res: StepResult)
       }
       res.events.push(Pressed(k));
       state.pass_through_keys.push(k);
-      proof { assert(res.events@.drop_last() =~= e2); lemma_push_set(pt2, k); lemma_push_nodup(pt2, k); lemma_push_contains(pt2, k);
+      proof { assert(res.events@.drop_last() =~= e2);
+        if is_mod(k) { assert(e2 =~= Seq::<Event>::empty()); lemma_ar_empty(); }
+        lemma_only_presses_released(e2, seq![k]); assert(seq![k].contains(k)) by { assert(seq![k][0] == k); } lemma_only_presses_push(e2, Event::Pressed(k), seq![k]); lemma_push_set(pt2, k); lemma_push_nodup(pt2, k); lemma_push_contains(pt2, k);
         assert(held(*state) =~= (pt2.to_set().union(state.mapped_output_keys@.to_set())).insert(k));
         lemma_pass_key(s_b, *state, k); lemma_am_sub_refl(s_b.active_mappings@); lemma_np_origin_shrink(s_b, *state, st0, g); lemma_ip_kept_eq(s_b, *state, st0);
         if !is_mod(k) { lemma_c08_gone_push(st0, s_b, *state, k); } }
@@ -2625,8 +2685,10 @@ fn newly_press(mapper: &mut Mapper, k: KeyCode) -> (res: StepResult)
   let ghost st_pre = *state;
   state.input_pressed_keys.push(k);
   proof { lemma_push_contains(ip0, k);
-    if hit1 { lemma_c08_final_hit(st0, st_pre, *state, k, g); }
-    else if any_hit { lemma_c08_final_keep(st0, st_pre, *state, k, true); }
+    if hit1 { lemma_c08_final_hit(st0, st_pre, *state, k, g);
+      let a = choose|i: int| #![trigger is_fired(g, st0, k, i)] is_fired(g, st0, k, i) && c08_pre(st0, st_pre, k, g[i]) && only_presses(res.events@, g[i].to@);
+      assert forall|i: int| #![trigger is_fired(g, st0, k, i)] is_fired(g, st0, k, i) implies only_presses(res.events@, g[i].to@) by { lemma_fired_unique(g, st0, k, a, i); } }
+    else if any_hit { assert(res.events@ =~= Seq::<Event>::empty()); lemma_ar_empty(); lemma_only_presses_released(res.events@, seq![k]); lemma_c08_final_keep(st0, st_pre, *state, k, true); }
     else if is_mod(k) { lemma_c08_final_keep(st0, st_pre, *state, k, false); }
     else { lemma_c08_final_clear(st0, st_pre, *state, k); }
     lemma_press_ip(st_pre, *state, k); lemma_am_sub_refl(st_pre.active_mappings@); lemma_np_origin_shrink(st_pre, *state, st0, g); lemma_ip_kept_push(st_pre, *state, st0, k);
